@@ -31,12 +31,15 @@ contract(F + '::OptionsDictionary._assert_valid', ['C27'],
          dict(self=Obj('OptionsDictionary', _dict=DictT({'opt': meta_spec()}), _parent_name=OneOf(None, 'comp')),
               name='opt', value=OneOf(None, Real(), OpaqueT('v'))),
          raises_iff={'*': "not %s or ghost(\"raised_by:meta['check_valid']\")" % valid(M0)}, may_raise=EXC,
-         ensures=[], modifies=[], inline={'_raise'},
-         assumed={CV: Assumed(may_raise=['ValueError'], note='user check_valid callback: may reject')},
-         ghost_init={"raised_by:meta['check_valid']": False},
+         # a value is accepted only after the declared check_valid callback has seen it (None included: allow_none only
+         # waives the values / types / bounds tests)
+         ensures=["implies(self._dict['opt']['check_valid'] is not None, ghost('cv_called'))"], modifies=[], inline={'_raise'},
+         assumed={CV: Assumed(may_raise=['ValueError'], note='user check_valid callback: may reject', ghost=lambda it, env, res: it.ctx.ghost.__setitem__('cv_called', True))},
+         ghost_init={"raised_by:meta['check_valid']": False, 'cv_called': False},
          canaries=[('upper bound uses >= instead of >', ('if value > upper:', 'if value >= upper:'), 'exc'),
                    ('allow_none ignored', ("if not (value is None and meta['allow_none']):", "if True:"), 'exc'),
-                   ('lower bound check dropped', ('if value < lower:', 'if False:'), 'exc')])
+                   ('lower bound check dropped', ('if value < lower:', 'if False:'), 'exc'),
+                   ('check_valid skipped for None on an allow_none option', ("        if meta['check_valid'] is not None:", "        if meta['check_valid'] is not None and not (value is None and meta['allow_none']):"), 'post')])
 
 
 # ---------------------------------------------------------------------------------------------
@@ -185,7 +188,7 @@ def native_set(which):
         from openmdao.utils.options_dictionary import OptionsDictionary
         od = OptionsDictionary()
         d = vals['self']['_dict']
-        state = {"raised_by:meta['check_valid']": False}
+        state = {"raised_by:meta['check_valid']": False, 'cv_called': False}
         m = dict(d['opt'])
         lo, up = m.get('lower'), m.get('upper')
         default = _num(lo) if lo is not None else (_num(up) if up is not None else 7.0)
@@ -196,6 +199,7 @@ def native_set(which):
             inner = od._dict['opt']['check_valid']
 
             def cv(nm, value):
+                state['cv_called'] = True
                 try:
                     inner(nm, value)
                 except Exception:
